@@ -44,6 +44,15 @@ func run(t *testing.T, ck Check) {
 		}
 	}
 	scs := ck.Scenarios(r)
+	if only := os.Getenv("VERIF_CMC_ONLY"); only != "" {
+		var keep []*Scenario
+		for _, sc := range scs {
+			if strings.Contains(sc.Name, only) {
+				keep = append(keep, sc)
+			}
+		}
+		scs = keep
+	}
 	if r.ReplayPath != "" {
 		var rp Replay
 		r.LoadReplay(&rp)
